@@ -149,6 +149,14 @@ func AttrVariants(p string) []Node {
 	out = append(out, Node{Path: p, Kind: Char, Perm: 0666, Mtime: mt[0], Major: 1, Minor: 5})
 	out = append(out, Node{Path: p, Kind: Block, Perm: 0660, Mtime: mt[0], Major: 7, Minor: 0})
 	out = append(out, Node{Path: p, Kind: Socket, Perm: 0755, Mtime: mt[0]})
+	// values outside the everyday range: a time before the epoch with a nanosecond part, ids above 2^31,
+	// device numbers above 255, several attributes of which one is empty and one large
+	out = append(out, Node{Path: p, Kind: File, Perm: 0644, Mtime: -86400*1e9*365 + 999999999, Data: Content(7, 5)})
+	out = append(out, Node{Path: p, Kind: File, Perm: 0644, UID: 3000000000, GID: 4294967294, Mtime: mt[0], Data: Content(7, 5)})
+	out = append(out, Node{Path: p, Kind: Dir, Perm: 0755, UID: 2147483648, GID: 65534, Mtime: mt[0]})
+	out = append(out, Node{Path: p, Kind: Char, Perm: 0666, Mtime: mt[0], Major: 300, Minor: 70000})
+	out = append(out, Node{Path: p, Kind: Block, Perm: 0660, Mtime: mt[0], Major: 4095, Minor: 256})
+	out = append(out, Node{Path: p, Kind: File, Perm: 0644, Mtime: mt[0], Data: Content(7, 5), Xattrs: map[string]string{"user.a": "", "user.b": strings.Repeat("B", 3000), "user.c": "\x00\xff"}})
 	return out
 }
 
